@@ -335,7 +335,7 @@ def thr_check(name, case, rec):
 # ---------------------------------------------------------------------------------------------------------------
 # expression API == array form
 # ---------------------------------------------------------------------------------------------------------------
-EXPR = ["bilinear-gg", "bilinear-sym", "linear-g", "linear-v", "mixed-bilinear", "mixed-linear", "bilinear-vv", "planestrain-gg", "bilinear-hh"]
+EXPR = ["bilinear-gg", "bilinear-sym", "linear-g", "linear-v", "mixed-bilinear", "mixed-linear", "bilinear-vv", "planestrain-gg", "bilinear-hh", "bilinear-two-containers"]
 
 
 def ex_strategy(name, tier):
@@ -433,6 +433,38 @@ def ex_check(name, case, rec):
                         K[cells[c_, a_] * dim + i_, cells[c_, b_] * dim + i_] += kab[a_, b_, c_]
         got = np.asarray(wf.assemble(fc, fc, parallel=par, sym=sym).toarray())
         rec.close("bilinear-hh" + ("(sym=True)" if sym else ""), float(np.abs(got - K).max()) / max(float(np.abs(K).max()), 1e-300) if got.shape == K.shape else float("inf"), 1e-11)
+    elif name == "bilinear-two-containers":
+        # test and trial functions from DIFFERENT containers on the same region: a scalar field q and a vector field w,
+        # a(q, w) = int q B : grad(w) dV (rows: unknowns of q, columns: unknowns of w) and its transposed layout a(w, q)
+        W = fem.FieldContainer([fem.Field(region, dim=dim)])
+        Q = fem.FieldContainer([fem.Field(region, dim=1)])
+        B = rng.standard_normal((dim, dim, nq, nc))
+
+        @fem.Form(v=Q, u=W, kwargs={"B": B})
+        def a_qw():
+            return [lambda v, u, B: v[0] * ddot(B, grad(u))]
+
+        @fem.Form(v=W, u=Q, kwargs={"B": B})
+        def a_wq():
+            return [lambda v, u, B: ddot(B, grad(v)) * u[0]]
+
+        # dense reference from the region's arrays: K[a, (b, i)] = sum_qc h_a B_iJ dh_b/dX_J dV
+        h = np.broadcast_to(np.asarray(region.h)[..., None] if np.asarray(region.h).ndim == 2 else np.asarray(region.h), (np.asarray(region.h).shape[0], nq, nc))
+        dh = np.broadcast_to(np.asarray(region.dhdX), np.asarray(region.dhdX).shape[:2] + (nq, nc))
+        kab = np.einsum("aqc,iJqc,bJqc,qc->abic", h, B, dh, np.broadcast_to(region.dV, (nq, nc)))
+        cells = np.asarray(mesh.cells)
+        Kref = np.zeros((mesh.npoints, mesh.npoints * dim))
+        for c_ in range(nc):
+            for a_ in range(cells.shape[1]):
+                for b_ in range(cells.shape[1]):
+                    Kref[cells[c_, a_], cells[c_, b_] * dim : cells[c_, b_] * dim + dim] += kab[a_, b_, :, c_]
+        for how in ("as-created", "containers-handed-over-again"):
+            kwq = dict(v=Q, u=W) if how != "as-created" else {}
+            got = np.asarray(a_qw.assemble(kwargs={"B": B}, parallel=par, **kwq).toarray())
+            rec.close("a(q, w):" + how, float(np.abs(got - Kref).max()) / float(np.abs(Kref).max()) if got.shape == Kref.shape else float("inf"), 1e-11, str(got.shape))
+            kww = dict(v=W, u=Q) if how != "as-created" else {}
+            got = np.asarray(a_wq.assemble(kwargs={"B": B}, parallel=par, **kww).toarray())
+            rec.close("a(w, q):" + how, float(np.abs(got - Kref.T).max()) / float(np.abs(Kref).max()) if got.shape == Kref.T.shape else float("inf"), 1e-11, str(got.shape))
     elif name == "bilinear-vv":
         fc = fem.FieldContainer([fem.Field(region, dim=dim)])
         M = rng.standard_normal((dim, dim, nq, nc))
